@@ -261,7 +261,7 @@ func c12Histories(c *Ctx) error {
 	if c.Replay != "" {
 		if hs, ok := c12ReplayHistory(c.Replay); ok {
 			hs.ID = "replay"
-			for i := 0; i < 3; i++ {
+			for i := 0; i < 3 && nfail == 0; i++ {
 				runSeq(hs)
 			}
 			st.Tag("replay")
